@@ -117,6 +117,8 @@ Definition dec_instr (v : val) : option instr :=
       match dec_names ns, omap dec_vals data with
       | Some n, Some d => Some (ICreateStrict n (map (fun a => match a with VInt z => Z.odd z | _ => false end) attrs) d)
       | _, _ => None end
+  | VTup [VInt 19; src; ns] =>
+      match dec_nat src, dec_names ns with Some s, Some n => Some (IDropDup s n) | _, _ => None end
   | _ => None
   end.
 
